@@ -11,3 +11,7 @@ open Martian.Props.C01
 #print axioms next_request_served_iff
 #print axioms chunked_body_identical_for_every_chunking
 #print axioms rechunking_by_the_relay_preserves_body
+#print axioms facts_one_read_one_roundtrip_one_write
+#print axioms facts_request_body_drained_at_return
+#print axioms facts_close_decision
+#print axioms facts_serving_loop
